@@ -585,3 +585,62 @@ fn violation_verdict<const D: usize>(config: &RepairAttemptConfig, in_a: i32, in
         "A V-slice pins the FORMULA, not that the function returns it (everything else in the function is dropped)",
   mutant=dict(file=FLIPS, old="let both_positive_artifact = D >= 4 && config.use_robust_on_ambiguous && in_a > 0 && in_b > 0;",
               new="let both_positive_artifact = D >= 3 && config.use_robust_on_ambiguous && in_a > 0 && in_b > 0;", desc="D >= 4 artefact suppression widened to D >= 3"))
+
+K("tds.remove_cells_bump", ["C11"], TDS, "tds.rs", "remove_cells_bumps_generation_contract", "K-callee",
+  [fn(TDS, "remove_cells_by_keys")], timeout=1500,
+  assumed=["collect_removal_frontier_and_clear_neighbor_back_references / remove_cells_and_update_uuid_mappings / repair_incident_cells_after_cell_removal (stubs): any removed count <= number of keys, storage effects not modelled"],
+  bounded="at most 2 cell keys (concrete key values; the key set is a real hash set)",
+  obligations=["count", "bump-on-removal", "incidence-repaired", "no-bump-without-change"],
+  claim="Tds::remove_cells_by_keys: whenever at least one cell was removed the generation is bumped exactly once (so hulls see the change); nothing removed => no bump",
+  mutant=dict(file=TDS, old="        // Bump generation once for all removals (neighbors + incidence + cell storage).\n        self.bump_generation();\n", new="",
+              desc="generation bump after bulk cell removal deleted"))
+K("tds.remove_missing_cell", ["C11"], TDS, "tds.rs", "remove_missing_cell_contract", "K-full",
+  [fn(TDS, "remove_cell_by_key")], tier="thorough", timeout=900, obligations=["missing-noop"],
+  bounded="empty Tds (every key is missing)",
+  claim="Tds::remove_cell_by_key on a key that is not present: None, generation unchanged")
+K("tri.adjacent_cells", ["C15"], TRI, "triangulation.rs", "adjacent_cells_contract", "K-callee",
+  [fn(TRI, "adjacent_cells", anchor=r"pub fn adjacent_cells\(&self, v: VertexKey\)")], timeout=1500,
+  assumed=["Tds::find_cells_containing_vertex_by_key (stub): the stored star, 0..2 cells; Tds::get_vertex_by_key (stub): any vertex record (absent / without / with incident-cell hint)"],
+  bounded="stars of 0..2 cells (concrete keys)", obligations=["star-is-stored-star"],
+  claim="Triangulation::adjacent_cells(v) yields exactly the stored star of v for every state of the vertex's incident-cell hint")
+
+TOPOV = "src/topology/characteristics/validation.rs"
+for d, tier in [(3, "quick"), (2, "thorough")]:
+    K(f"euler.classify.d{d}", ["C15"], TOPOV, "topo_validation.rs", f"euler_classify_d{d}", "K-callee",
+      [fn(TOPOV, "validate_triangulation_euler_with_facet_to_cells_map")], tier=tier, timeout=1500,
+      assumed=["count_simplices_with_facet_to_cells_map (stub: any f-vector), euler_characteristic (stub: any chi; proved by euler.len*), Tds::number_of_cells (stub: any count); format! stubbed"],
+      bounded="facet map with one interior facet and optionally one boundary facet (concrete keys)",
+      obligations=["chi-reported", "empty", "single", "ball", "sphere"],
+      claim="classification + expected chi of the Level-3 Euler check: >= 1 cell with a boundary facet => Ball/SingleSimplex held to chi = 1; closed => 1 + (-1)^D; computed chi reported unchanged",
+      mutant=dict(file=TOPOV, old="    } else if facet_to_cells.values().any(|cells| cells.len() == 1) {", new="    } else if facet_to_cells.values().all(|cells| cells.len() == 1) {",
+                  desc="ball classification requires ALL facets to be boundary facets") if d == 3 else None)
+
+BUILDER = "src/core/builder.rs"
+K("builder.canonicalize_vertices", ["C16"], BUILDER, "builder.rs", "canonicalize_vertices_contract", "K-callee",
+  [fn(BUILDER, "canonicalize_vertices")], timeout=1200, no_playback=True,
+  assumed=["GlobalTopologyModel::canonicalize_point_in_place replaced by an arbitrary model (rewrites or refuses; contract of the real ToroidalModel proved by canon_model.*); format! stubbed"],
+  bounded="2 input vertices",
+  obligations=["err-propagates", "same-length", "uuid-kept", "data-kept", "coords-from-model", "untouched-axes", "err-only-from-model", "first-error-stops"],
+  claim="DelaunayTriangulationBuilder::canonicalize_vertices: same length and order, UUID and data kept, only coordinates replaced by the model's, first model error => Err",
+  mutant=dict(file=BUILDER, old="            let new_vertex = Vertex::new_with_uuid(new_point, v.uuid(), v.data);", new="            let new_vertex = Vertex::new_with_uuid(new_point, v.uuid(), None);",
+              desc="user data dropped while canonicalising"))
+
+# ======================================================================================
+# C19 is the union of the no-panic obligations; in the quick tier only the cheap units run for it
+# ======================================================================================
+_C19_QUICK = {"hilbert.d2b4", "wrap_coord.d2", "canon_model.d2_f64", "valid.vertex.d2", "maxflips", "flipkind",
+              "tri.validate_after_insertion", "hull.stale.validate", "hull.stale.is_point_outside"}
+for _u in UNITS:
+    if "C19" in _u["props"] and _u.get("tier", "quick") == "quick" and _u["id"] not in _C19_QUICK:
+        _u.setdefault("tier_for", {})["C19"] = "thorough"
+
+K("flip.k1_insert_rollback", ["C03"], FLIPS, "flips.rs", "flip_k1_insert_rollback_contract", "K-callee",
+  [fn(FLIPS, "apply_bistellar_flip_k1")], timeout=1200,
+  assumed=["Tds::insert_vertex_with_mapping (stub): Ok => exactly the new isolated vertex added, Err => unchanged; build_k1_forward_context_from_cell (stub): any result; "
+           "apply_bistellar_flip (stub): Ok => any change, Err => ASSUMED unchanged (its late errors after insert_cell_with_mapping are storage code, not under contract); "
+           "Tds::remove_vertex (stub): removing the fresh isolated vertex restores the entry state"],
+  obligations=["ok-path", "err-no-vertex-left"],
+  claim="apply_bistellar_flip_k1 (Edit-API flip_k1_insert): for every failure point (duplicate UUID, missing/stale cell, failed flip) Err leaves no vertex behind (F8 fixed)",
+  mutant=dict(file=FLIPS, old="    let result = match build_k1_forward_context_from_cell(tds, cell_key, vertex_key) {\n        Ok(context) => apply_bistellar_flip::<K, U, V, D, 1>(tds, kernel, &context),\n        Err(e) => Err(e),\n    };",
+              new="    let context = build_k1_forward_context_from_cell(tds, cell_key, vertex_key)?;\n    let result = apply_bistellar_flip::<K, U, V, D, 1>(tds, kernel, &context);",
+              desc="context construction error returns early again, leaving the vertex (F8)"))
